@@ -127,6 +127,26 @@ func c10RowsKEM() []*kit.Row {
 					Call:   func(in []byte) error { _, err := s.UnmarshalBinaryPrivateKey(in); return err },
 					Extras: []kit.Named{{"own-public-key", k.ppk}, {"own-ciphertext", k.ct}, {"foreign-private-key", fk.psk}}}
 			}})
+		rows = append(rows, &kit.Row{Name: "kem[" + ki.name + "].UnmarshalBinaryPrivateKey(+Decapsulate)", Cost: ki.cost,
+			Covers: append(cov("UnmarshalBinaryPrivateKey"), cov("Decapsulate")...),
+			Note:   "an accepted private key (bytes from storage) is used: Decapsulate of an honest ciphertext, Public(), MarshalBinary",
+			Setup: func() *kit.Inst {
+				k := c10KemKeygen(s)
+				return &kit.Inst{Bases: [][]byte{k.psk},
+					Call: func(in []byte) error {
+						sk, err := s.UnmarshalBinaryPrivateKey(in)
+						if err != nil {
+							return err
+						}
+						_, _ = s.Decapsulate(sk, k.ct)
+						if pk := sk.Public(); pk != nil {
+							_, _ = pk.MarshalBinary()
+						}
+						_, _ = sk.MarshalBinary()
+						return nil
+					},
+					Extras: []kit.Named{{"second-private-key", k.psk2}, {"own-public-key", k.ppk}}}
+			}})
 		rows = append(rows, &kit.Row{Name: "kem[" + ki.name + "].Decapsulate#ct", Covers: cov("Decapsulate"), Cost: ki.cost,
 			Setup: func() *kit.Inst {
 				k := c10KemKeygen(s)
